@@ -140,9 +140,11 @@ where
                 }
             }
         } else if let Some(ref mut service_stream) = last_service_stream {
-            // flush buffer
-            client_writer.write_all(client_bufreader.buffer())?;
-            let service_writer = service_stream.try_clone()?;
+            let mut service_writer = service_stream.try_clone()?;
+            // bytes of the upgraded protocol the client sent right behind the upgrade request
+            // were read ahead with it: they belong to the service
+            service_writer.write_all(client_bufreader.buffer())?;
+            service_writer.flush()?;
             let service_reader = WatchClose::new_read(service_stream.as_ref(), &client_writer)?;
             let client_reader = WatchClose::new_read(&client_reader, service_stream.as_ref())?;
 
